@@ -4,6 +4,7 @@
   determinism [runs]           every property: the same run indices executed in separate processes, with different
                                partitions (1, 7 and 16 workers) and in reverse order, must give identical plan and trace hashes
   regressions                  replay every regressions/*.plan on the current tree (all must hold)
+  realcli [plans]              simulator against reality: C06 tool plans run on SimFS and by the plain lha on a real directory
   reach [runs]                 coverage build: which functions named in each property's anchors the sampled plans execute
   mutants [ids...]             apply each seeded/<id>/patch.diff and mutants/*.patch to a scratch copy of /repo and run the
                                tagged checks against it (VERIF_REPO); every one must be reported as a VIOLATION
@@ -239,9 +240,156 @@ def reach(args):
     return 0
 
 
+def realcli(args):
+    """Simulator against reality, whole runs: sampled C06 tool plans are executed in-process on SimFS (by simlha) and by the
+    plain, unwrapped lha binary on a real scratch directory (as root or as uid 1000, same umask, TZ, initial tree, stdin);
+    the resulting trees must agree on type, contents, link target, permission bits and every recorded mtime."""
+    import zlib
+    exe = builder.build("asan")
+    lha = builder.build_plain_cli()
+    n = int(args[0]) if args else 300
+    base = os.path.join(VERIF, "build", "realcli-%d" % os.getpid())
+    bad = done = skipped = 0
+
+    def crc16(data):
+        crc = 0
+        for b in data:
+            crc ^= b
+            for _ in range(8):
+                crc = (crc >> 1) ^ 0xA001 if crc & 1 else crc >> 1
+        return crc
+
+    for i in range(n):
+        shutil.rmtree(base, ignore_errors=True)
+        os.makedirs(base)
+        r = sh([exe, "c06dump", "1", str(i), base])
+        if r.returncode != 0:
+            skipped += 1
+            continue
+        spec = {"argv": [], "fs": [], "tree": {}}
+        for line in open(os.path.join(base, "spec.txt")):
+            f = line.split()
+            if f[0] == "argv":
+                spec["argv"].append(bytes.fromhex(f[1]))
+            elif f[0] == "fs":
+                spec["fs"].append((f[1], bytes.fromhex(f[2]), int(f[3]), int(f[4]), b"" if f[5] == "-" else bytes.fromhex(f[5]), b"" if f[6] == "-" else bytes.fromhex(f[6])))
+            elif f[0] == "tree":
+                spec["tree"][bytes.fromhex(f[1])] = (f[2], int(f[3]), int(f[4]), f[5], b"" if f[6] == "-" else bytes.fromhex(f[6]))
+            elif f[0] == "stdin":
+                spec["stdin"] = b"" if f[1] == "-" else bytes.fromhex(f[1])
+            elif f[0] == "stdout":
+                spec["stdout"] = b"" if f[1] == "-" else bytes.fromhex(f[1])
+            elif f[0] == "status":
+                spec["status"] = (int(f[1]), int(f[2]))
+            else:
+                spec[f[0]] = f[1]
+        euid = int(spec["euid"])
+        rootdir = os.path.join(base, "w", "x", "y", "root")
+        os.makedirs(rootdir)
+        shutil.copy(os.path.join(base, "archive.lzh"), os.path.join(base, "w", "a.lzh"))
+        os.chmod(base, 0o755)
+        for d in (os.path.join(base, "w", "x", "y"), rootdir):
+            os.chown(d, euid, euid)
+        for typ, path, mode, mtime, data, target in spec["fs"]:
+            real = base.encode() + path
+            os.makedirs(os.path.dirname(real), exist_ok=True)
+            if typ == "d":
+                os.makedirs(real, exist_ok=True)
+                os.chmod(real, mode)
+            elif typ == "f":
+                open(real, "wb").write(data)
+                os.chmod(real, mode)
+            else:
+                os.symlink(target, real)
+            os.lchown(real, euid, euid)
+            # parents created on the way belong to the user as well
+            par = os.path.dirname(real)
+            while par.startswith(rootdir.encode()) and par != rootdir.encode():
+                os.chown(par, euid, euid)
+                par = os.path.dirname(par)
+        # time stamps last, deepest first (creating a child re-stamps its directory)
+        for typ, path, mode, mtime, data, target in sorted(spec["fs"], key=lambda e: -len(e[1])):
+            if typ != "l":
+                os.utime(base.encode() + path, (mtime, mtime))
+        argv = [lha.encode()] + spec["argv"][1:]
+        from_stdin = argv[2] == b"-"
+        if not from_stdin:
+            argv[2] = os.path.join(base, "w", "a.lzh").encode()
+        stdin_data = open(os.path.join(base, "archive.lzh"), "rb").read() if from_stdin else spec["stdin"]
+
+        def pre():
+            os.umask(int(spec["umask"]))
+            if euid:
+                os.setgroups([])
+                os.setgid(euid)
+                os.setuid(euid)
+        env = dict(os.environ, TZ=spec["tz"])
+        try:
+            pr = subprocess.run(argv, input=stdin_data, cwd=rootdir, env=env, preexec_fn=pre, capture_output=True, timeout=60)
+        except subprocess.TimeoutExpired:
+            print("run %d: real tool timed out" % i)
+            bad += 1
+            continue
+        # real tree
+        real_tree = {}
+        for dp, dns, fns in os.walk(rootdir.encode()):
+            for nm in dns + fns:
+                full = os.path.join(dp, nm)
+                rel = os.path.relpath(full, rootdir.encode())
+                st = os.lstat(full)
+                import stat as S
+                if S.S_ISLNK(st.st_mode):
+                    real_tree[rel] = ("l", 0, int(st.st_mtime), "0:0", os.readlink(full))
+                elif S.S_ISDIR(st.st_mode):
+                    real_tree[rel] = ("d", st.st_mode & 0o7777, int(st.st_mtime), "0:0", b"")
+                else:
+                    data = open(full, "rb").read()
+                    real_tree[rel] = ("f", st.st_mode & 0o7777, int(st.st_mtime), "%d:%d" % (len(data), crc16(data)), b"")
+            # symlinks to directories are listed under dns by os.walk; do not descend (followlinks is off)
+        done += 1
+        problems = []
+        sim = spec["tree"]
+        cmdletter = spec["argv"][1].lstrip(b"-")[:1]
+        for rel in sorted(set(sim) | set(real_tree)):
+            a, b = sim.get(rel), real_tree.get(rel)
+            if a is None or b is None:
+                problems.append("%r: %s" % (rel, "only in the simulated tree" if b is None else "only in the real tree"))
+                continue
+            if a[0] != b[0]:
+                problems.append("%r: type sim %s real %s" % (rel, a[0], b[0]))
+                continue
+            if a[0] == "f" and a[3] != b[3]:
+                problems.append("%r: contents sim %s real %s" % (rel, a[3], b[3]))
+            if a[0] == "l" and a[4] != b[4]:
+                problems.append("%r: target sim %r real %r" % (rel, a[4], b[4]))
+            if a[0] != "l" and (a[1] & 0o7777) != b[1]:
+                problems.append("%r: mode sim %o real %o" % (rel, a[1] & 0o7777, b[1]))
+            # mtimes stamped by the simulated clock (1.5e9 .. +1e6) have no real counterpart; everything else was set explicitly
+            # (1000000000 is SimFS's constant for parents of the initial tree that the plan does not describe)
+            if a[0] != "l" and not (1500000000 <= a[2] <= 1501000000) and a[2] != 1000000000 and a[2] != b[2]:
+                problems.append("%r: mtime sim %d real %d" % (rel, a[2], b[2]))
+        rc_real = pr.returncode if pr.returncode >= 0 else 256 + pr.returncode
+        st_sim = spec["status"][0] & 0xff
+        if rc_real != st_sim:
+            problems.append("exit status sim %d real %d" % (st_sim, rc_real))
+        if cmdletter == b"p" and spec["stdout"] != pr.stdout:
+            problems.append("stdout of p differs (%d vs %d bytes)" % (len(spec["stdout"]), len(pr.stdout)))
+        if problems:
+            bad += 1
+            if bad <= 5:
+                print("run %d (%s, euid %d): simulated and real runs disagree:" % (i, b" ".join(spec["argv"][1:]).decode("latin1"), euid))
+                for pl in problems[:8]:
+                    print("    " + pl)
+        # make everything removable again
+        subprocess.run(["chmod", "-R", "u+rwx", base], capture_output=True)
+    shutil.rmtree(base, ignore_errors=True)
+    print("realcli: %d plans compared (%d skipped: library-policy plans or absolute w=), %d disagreements" % (done, skipped, bad))
+    return 1 if bad else 0
+
+
 def main(args):
     if not args:
         print(__doc__)
         return 2
     what, rest = args[0], args[1:]
-    return {"simfs": simfs, "determinism": determinism, "regressions": regressions, "mutants": mutants, "reach": reach}.get(what, lambda a: 2)(rest)
+    return {"simfs": simfs, "determinism": determinism, "regressions": regressions, "mutants": mutants, "reach": reach, "realcli": realcli}.get(what, lambda a: 2)(rest)
